@@ -181,3 +181,131 @@ def loop_family():
   }}
 }}"""
                 yield text, [16], [16, 16, 16]
+
+
+def cf_truth_family():
+    """cf programs where a branch condition is used again in a block with several predecessors / in both arms."""
+    shapes = [
+        # if-without-else diamond: ^else (join) has two predecessors and uses %c again
+        """    cf.cond_br %c, ^then, ^join(%a0 : i8)
+  ^then:
+    %t = arith.addi %a0, %a1 : i8
+    cf.br ^join(%t : i8)
+  ^join(%p : i8):
+    %one = arith.constant 1 : i8
+    %two = arith.constant 2 : i8
+    %s = arith.select %c, %one, %two : i8
+    %r = arith.addi %p, %s : i8
+    func.return %r : i8""",
+        # the condition used in both successors, each with a single predecessor
+        """    cf.cond_br %c, ^then, ^else
+  ^then:
+    %x = arith.select %c, %a0, %a1 : i8
+    func.return %x : i8
+  ^else:
+    %y = arith.select %c, %a0, %a1 : i8
+    func.return %y : i8""",
+        # second branch on the same condition in the join block
+        """    cf.cond_br %c, ^then, ^join
+  ^then:
+    cf.br ^join
+  ^join:
+    cf.cond_br %c, ^l, ^r
+  ^l:
+    func.return %a0 : i8
+  ^r:
+    func.return %a1 : i8""",
+        # loop back-edge into the else block
+        """    cf.cond_br %c, ^a, ^b(%a0 : i8)
+  ^a:
+    %n = arith.xori %a0, %a1 : i8
+    cf.br ^b(%n : i8)
+  ^b(%q : i8):
+    %z = arith.constant 0 : i8
+    %m = arith.select %c, %q, %z : i8
+    func.return %m : i8""",
+    ]
+    for body in shapes:
+        yield f"builtin.module {{\n  func.func @main(%c : i1, %a0 : i8, %a1 : i8) -> (i8) {{\n{body}\n  }}\n}}", [1, 8, 8], [8]
+
+
+def nest_family(rng, n: int):
+    """Perfect and imperfect scf.for nests with iter_args, used and unused induction variables, effects in the body."""
+    for _ in range(n):
+        olb, oub, ost = rng.choice([0, 0, 0, 1, -1]), rng.choice([0, 1, 2, 3, 4]), rng.choice([1, 1, 2, 3])
+        ilb, iub, ist = rng.choice([0, 0, 1, 2, -2]), rng.choice([0, 2, 3, 5]), rng.choice([1, 1, 2])
+        use_i, use_j = rng.random() < 0.5, rng.random() < 0.5
+        eff = rng.random() < 0.4
+        sym = rng.random() < 0.3
+        k1, k2 = rng.choice([1, 2, 3, -1, 0]), rng.choice([0, 1, 5, -2])
+        body = []
+        if use_i:
+            body += ["        %ii = arith.index_cast %i : index to i16", f"        %ki = arith.constant {k1} : i16", "        %mi = arith.muli %ii, %ki : i16",
+                     "        %x1 = arith.addi %acc2, %mi : i16"]
+        else:
+            body += ["        %x1 = arith.addi %acc2, %a0 : i16"]
+        if use_j:
+            body += ["        %jj = arith.index_cast %j : index to i16", f"        %kj = arith.constant {k2} : i16", "        %aj = arith.addi %jj, %kj : i16",
+                     "        %x2 = arith.xori %x1, %aj : i16"]
+        else:
+            body += ["        %x2 = arith.addi %x1, %one : i16"]
+        if eff:
+            body += ["        func.call @ext16(%x2) : (i16) -> ()"]
+        oub_def = f"    %oub = arith.constant {oub} : index" if not sym else "    %oub = arith.index_cast %a1 : i16 to index"
+        text = f"""builtin.module {{
+  func.func private @ext16(i16) -> ()
+  func.func @main(%a0 : i16, %a1 : i16) -> (i16) {{
+    %olb = arith.constant {olb} : index
+{oub_def}
+    %ost = arith.constant {ost} : index
+    %ilb = arith.constant {ilb} : index
+    %iub = arith.constant {iub} : index
+    %ist = arith.constant {ist} : index
+    %one = arith.constant 1 : i16
+    %r = scf.for %i = %olb to %oub step %ost iter_args(%acc = %a0) -> (i16) {{
+      %r2 = scf.for %j = %ilb to %iub step %ist iter_args(%acc2 = %acc) -> (i16) {{
+{chr(10).join(body)}
+        scf.yield %x2 : i16
+      }}
+      scf.yield %r2 : i16
+    }}
+    func.return %r : i16
+  }}
+}}"""
+        yield text, [16, 16], [16]
+
+
+def range_fold_family(rng, n: int):
+    """Loops whose induction variable feeds add/mul chains with loop-invariant operands (incl. zero / negative factors, multi-use)."""
+    for _ in range(n):
+        lb, ub, st = rng.choice([0, 1, -2]), rng.choice([0, 3, 4, 5]), rng.choice([1, 2])
+        c = rng.choice([0, 1, 2, 3, -1])
+        sym = rng.random() < 0.5
+        shape = rng.choice(["add", "mul", "addmul", "multiuse"])
+        kdef = "    %k = arith.index_cast %a1 : i16 to index" if sym else f"    %k = arith.constant {c} : index"
+        if shape == "add":
+            body = ["      %t = arith.addi %i, %k : index"]
+        elif shape == "mul":
+            body = ["      %t = arith.muli %i, %k : index"]
+        elif shape == "addmul":
+            body = ["      %t0 = arith.addi %i, %k : index", "      %t = arith.muli %t0, %k2 : index"]
+        else:
+            body = ["      %t0 = arith.addi %i, %k : index", "      %tm = arith.muli %t0, %k2 : index", "      %tn = arith.addi %t0, %k : index",
+                    "      %t = arith.addi %tm, %tn : index"]
+        text = f"""builtin.module {{
+  func.func @main(%a0 : i16, %a1 : i16) -> (i16) {{
+    %lb = arith.constant {lb} : index
+    %ub = arith.constant {ub} : index
+    %st = arith.constant {st} : index
+{kdef}
+    %k2 = arith.constant {rng.choice([2, 3, 1])} : index
+    %r = scf.for %i = %lb to %ub step %st iter_args(%acc = %a0) -> (i16) {{
+{chr(10).join(body)}
+      %tc = arith.index_cast %t : index to i16
+      %n = arith.addi %acc, %tc : i16
+      scf.yield %n : i16
+    }}
+    func.return %r : i16
+  }}
+}}"""
+        yield text, [16, 16], [16]
